@@ -110,6 +110,20 @@ class Ctx:
         if raise_ and self.shrinking and not self.collect:
             raise Violation(bucket)
 
+    def checkpoint(self):
+        """write what was explored so far to the shard's result file: a later abort of the process inside native code
+        (z3) then only loses the stratum that was running"""
+        out = os.environ.get("VF_SHARD_OUT")
+        if not out:
+            return
+        try:
+            tmp = out + ".tmp"
+            with open(tmp, "w") as fh:
+                json.dump(("ok", self.summary()), fh, default=str)
+            os.replace(tmp, out)
+        except OSError:
+            pass
+
     def summary(self):
         return {
             "counters": dict(self.counters),
@@ -180,6 +194,7 @@ def run_hypothesis(ctx, strategy, fn, max_examples, shrink=None):
         ctx.counters["hypothesis_flaky_reexecution"] += 1
     finally:
         ctx.shrinking = False
+        ctx.checkpoint()
 
 
 def load_prop(prop):
@@ -212,7 +227,7 @@ def run_shards(prop, tier, seed, nshards, collect, budget_s):
         for i in range(nshards):
             out = os.path.join(tmp, f"shard{i}.json")
             cmd = [sys.executable, "-m", "vf.shard", prop, tier, str(seed), str(i), str(nshards), "1" if collect else "0", str(budget_s), out]
-            procs.append((i, out, subprocess.Popen(cmd, cwd=ROOT, stdout=subprocess.DEVNULL, stderr=subprocess.DEVNULL)))
+            procs.append((i, out, subprocess.Popen(cmd, cwd=ROOT, stdout=subprocess.DEVNULL, stderr=subprocess.DEVNULL, env=dict(os.environ, VF_SHARD_OUT=out))))
         deadline = time.time() + budget_s + 240
         results, crashed = [], []
         for i, out, p in procs:
@@ -225,6 +240,9 @@ def run_shards(prop, tier, seed, nshards, collect, budget_s):
             if os.path.exists(out):
                 with open(out) as fh:
                     status, res = json.load(fh)
+                if rc != 0 and status == "ok":
+                    # the process died after a checkpoint: what it had explored until then is kept
+                    res["counters"][f"shard_process_died_after_checkpoint_rc={rc}"] = 1
                 results.append((status, res))
             else:
                 crashed.append((i, rc))
